@@ -1,7 +1,7 @@
 """
 Correspondence probes for the bookkeeping models (Lean: PGModel/Cache.lean, Share.lean, Serialize.lean, Inference.lean, Validate.lean, Api.lean, Memo.lean, Marginals.lean):
 random operation histories / requests are replayed on the REAL objects and on the model through the driver commands
-`cache`, `share`, `serial`, `infer`, `validate`, `api`, `memo`; answers are diffed. Used by props/c17.py, c19.py, c20.py (ctx.corr_break on mismatch).
+`cache`, `share`, `serial`, `infer`, `validate`, `api`, `memo`, `demoobj` (PGModel/DemoObj.lean); answers are diffed. Used by props/c05.py, c17.py, c19.py, c20.py (ctx.corr_break on mismatch).
 """
 import os, random, math
 from fractions import Fraction
@@ -1552,6 +1552,159 @@ def marginals_probe(ctx, rng, variant='current'):
     return info
 
 
+# ------------------------------------------------------------------------------------------ the mutable Demography object (C05)
+def _demoobj_event(pg, rng, names):
+    """a REAL event object over (a subset of) `names`; times from a small grid so that equal start times are frequent"""
+    t = lambda: rng.choice([0, 0, 0.25, 0.5, 0.5, 1.0, 2.0])
+    kinds = ['size', 'sizes', 'sizes']
+    if len(names) >= 2:
+        kinds += ['mig', 'mig1', 'sym', 'split']
+    kind = rng.choice(kinds)
+    if kind == 'size':
+        return pg.PopSizeChange(pop=rng.choice(names), time=t(), size=rng.choice([0.5, 1.0, 2.0]))
+    if kind == 'sizes':
+        pops = rng.sample(names, rng.randint(1, len(names)))
+        return pg.PopSizeChanges({p: {t(): rng.choice([0.5, 2.0]) for _ in range(rng.randint(1, 2))} for p in pops})
+    if kind == 'mig':
+        pairs = [(p, q) for p in names for q in names if p != q]
+        return pg.MigrationRateChanges({pq: {t(): rng.choice([0.0, 0.5, 1.0])} for pq in rng.sample(pairs, rng.randint(1, min(3, len(pairs))))})
+    if kind == 'mig1':
+        p, q = rng.sample(names, 2)
+        return pg.MigrationRateChange(source=p, dest=q, time=t(), rate=rng.choice([0.25, 1.0]))
+    if kind == 'sym':
+        pops = rng.sample(names, rng.randint(2, len(names)))
+        return pg.SymmetricMigrationRateChanges(pops=pops, rate=rng.choice([0.5, {t(): 0.25}, {0.5: 1.0, 0.25: 0.5}]))
+    anc = rng.choice(names)
+    derived = rng.sample([p for p in names if p != anc], rng.randint(1, len(names) - 1))
+    return pg.PopulationSplit(time=t(), derived=derived if rng.random() < 0.6 else derived[0], ancestral=anc)
+
+
+def demoobj_history(ctx, rng, n_ops, variant='current'):
+    """The MUTABLE `Demography` object and its hand-over to `Coalescent` (Lean: PGModel/DemoObj.lean, driver `demoobj`):
+    a random history of constructor / `add_events` / `add_event` / evaluating the epochs / reading `pop_names`, `n_pops` and
+    the order of `events` / building a `Coalescent` on the object is executed on a REAL `Demography` and replayed by the model;
+    every observation is diffed.  Independently of the model: `pop_names` must at every read be the sorted set of the names of
+    the events added so far, and `Coalescent.__init__` must not add a `PopSizeChanges` for a name some event already mentions."""
+    pg = C.import_phasegen()
+    pool = ['a', 'b', 'pop_0', 'zeta', 'B']
+    names = rng.sample(pool, rng.randint(2, 3))
+    keep, ids, counter = [], {}, [0]          # `keep` holds every event object alive: `id()` stays unique
+
+    def reg(e):
+        keep.append(e)
+        ids[id(e)] = counter[0]
+        counter[0] += 1
+        return e
+
+    def tok(e):
+        return f"{ids[id(e)]}@{C.rs(e.start_time)}@{','.join(e.pop_names) or '-'}"
+
+    def toks(evs):
+        return ';'.join(tok(e) for e in evs) or '-'
+
+    def fresh_events(k):
+        return [reg(_demoobj_event(pg, rng, names)) for _ in range(k)]
+
+    d, ops, real, specified, history_names = None, [], [], set(), []
+    starts = []
+    with C.LogCapture():
+        for j in range(n_ops):
+            o = 'new' if d is None else rng.choice(['new'] + ['adds', 'add', 'add', 'touch', 'names', 'names', 'order', 'coal', 'coal'] * 3)
+            if o == 'new':
+                evs = fresh_events(rng.choice([0, 0, 1, 2, 3]))
+                kw = {}
+                if rng.random() < 0.4:
+                    sh = rng.choice(['flat', 'full', 'scalar'])
+                    ps = rng.sample(names, rng.randint(1, len(names)))
+                    kw['pop_sizes'] = (2.0 if sh == 'scalar' else {p: 2.0 for p in ps} if sh == 'flat' else
+                                       {p: {rng.choice([0, 0.25, 0.5]): 2.0, 1.0: 0.5} for p in ps})
+                if rng.random() < 0.3:
+                    p, q = rng.sample(names, 2)
+                    kw['migration_rates'] = rng.choice([{(p, q): 0.5}, {(p, q): {0.5: 1.0}, (q, p): {0.25: 0.5}}])
+                d = pg.Demography(events=list(evs), **kw)
+                extra = [e for e in d.events if id(e) not in ids]
+                assert len(extra) == (1 if kw else 0), (kw, extra)
+                for e in extra:
+                    reg(e)
+                ops.append(f"new:{toks(evs)}" + (f":{tok(extra[0])}" if extra else ''))
+                real.append('.')
+                specified = {p for e in evs + extra for p in e.pop_names}
+                starts = [float(e.start_time) for e in evs + extra]
+                if kw:
+                    ctx.count('demoobj:ctor-dicts')
+            elif o == 'adds':
+                evs = fresh_events(rng.choice([0, 1, 2, 2, 3]))
+                d.add_events(list(evs))
+                ops.append(f"adds:{toks(evs)}"); real.append('.')
+                specified |= {p for e in evs for p in e.pop_names}
+                starts += [float(e.start_time) for e in evs]
+            elif o == 'add':
+                e = fresh_events(1)[0]
+                d.add_event(e)
+                ops.append(f"add:{tok(e)}"); real.append('.')
+                specified |= set(e.pop_names)
+                starts.append(float(e.start_time))
+            elif o == 'touch':
+                how = rng.choice(['next', 'get_epoch', 'get_epochs'])
+                if how == 'next':
+                    next(d.epochs)
+                elif how == 'get_epoch':
+                    d.get_epoch(0.3)
+                else:
+                    d.get_epochs([1.5, 0.1])
+                ops.append('touch'); real.append('.')
+            elif o == 'names':
+                pn, npops = list(d.pop_names), d.n_pops
+                ops.append('names'); real.append(f"{','.join(pn) or '-'};n={npops}")
+                ctx.count('demoobj:reads-of-pop_names')
+                if pn != sorted(specified) or npops != len(specified):
+                    ctx.violation('demography-object:stale-pop-names', history=list(ops), observed=dict(pop_names=pn, n_pops=npops),
+                                  specified=sorted(specified))
+            elif o == 'order':
+                ops.append('order'); real.append(','.join(str(ids[id(e)]) for e in d.events) or '-')
+                if len(set(starts)) < len(starts):
+                    ctx.count('demoobj:order-read-with-equal-start-times')
+            else:
+                cand = rng.sample(pool, rng.randint(1, 2)) if rng.random() < 0.5 else rng.sample(names, rng.randint(1, len(names)))
+                n = {p: rng.choice([0, 1, 2, 2, 3]) for p in cand}
+                before, pn_before = list(d.events), list(d.pop_names)
+                coal = pg.Coalescent(n=dict(n), demography=d, parallelize=False, pbar=False)
+                new_id = counter[0]
+                extra = [e for e in d.events if id(e) not in ids]
+                assert len(extra) <= 1 and len(d.events) == len(before) + len(extra), (len(before), len(d.events))
+                for e in extra:
+                    reg(e)
+                lin = {str(k): int(v) for k, v in coal.lineage_config.lineage_dict.items()}
+                ops.append(f"coal:{new_id}:{','.join(f'{p}={c}' for p, c in n.items())}")
+                real.append(f"added={','.join(extra[0].pop_names) if extra else '-'};lin={','.join(f'{p}={c}' for p, c in sorted(lin.items()))}")
+                ctx.count('demoobj:coalescents'); ctx.count('demoobj:coalescent-adds-event' if extra else 'demoobj:coalescent-adds-nothing')
+                if list(lin)[:len(n)] != list(n):
+                    ctx.violation('demography-object:sample-order-changed', history=list(ops), sample=n, lineage_dict=lin)
+                if extra:
+                    if type(extra[0]).__name__ != 'PopSizeChanges' or float(extra[0].start_time) != 0.0:
+                        ctx.corr_break('demoobj-history', why='completion event is not PopSizeChanges at 0', request=' '.join(ops),
+                                       real=f'{type(extra[0]).__name__}@{extra[0].start_time}')
+                    over = sorted(set(extra[0].pop_names) & specified)
+                    if over:
+                        ctx.violation('demography-object:completion-overrides', history=list(ops), added=list(extra[0].pop_names),
+                                      observed=dict(pop_names_read_by_the_constructor=pn_before), specified=sorted(specified),
+                                      overridden=over)
+                    specified |= set(extra[0].pop_names)
+                    starts.append(0.0)
+    line = f"demoobj {variant} {' '.join(ops)}"
+    ans = C.driver().ask(line)
+    model = [f.strip() for f in ans.split('|')]
+    ctx.count('demoobj-histories'); ctx.count('demoobj-ops', len(ops))
+    bad = []
+    if len(model) != len(real):
+        bad.append(dict(why='number of fields', model=len(model), real=len(real)))
+    else:
+        bad = [dict(op_index=i, op=ops[i], model=m, real=r) for i, (m, r) in enumerate(zip(model, real)) if m != r]
+    if bad:
+        ctx.corr_break('demoobj-history', variant=variant, request=line, model=ans, real=' | '.join(real), mismatches=bad[:6])
+    return line
+
+
 # ------------------------------------------------------------------------------------------ pmap entry points
 def one_memo(ctx, i):
     rng = random.Random(f'{ctx.seed}-corr-memo-{i}')
@@ -1636,3 +1789,11 @@ def one_marginals(ctx, i):
     for _ in range(3):
         info = marginals_probe(ctx, rng, variant=os.environ.get('VERIF_MARG_VARIANT', 'current')) or info
     ctx.case(dict(kind='marginals', batch=i, last=info), f'marginals-{i}')
+
+
+def one_demoobj(ctx, i):
+    rng = random.Random(f'{ctx.seed}-corr-demoobj-{i}')
+    line = None
+    for _ in range(20):
+        line = demoobj_history(ctx, rng, n_ops=rng.randint(3, 10), variant=os.environ.get('VERIF_DEMOOBJ_VARIANT', 'current'))
+    ctx.case(dict(kind='demoobj-history', batch=i, last=line), f'demoobj-{i}')
